@@ -19,9 +19,12 @@ void register_final_hook(void (*f)()) { final_hooks().push_back(f); }
 std::vector<void (*)(const std::string&, const std::string&)>& integrity_hooks() { static std::vector<void (*)(const std::string&, const std::string&)> v; return v; }
 void register_integrity_hook(void (*f)(const std::string&, const std::string&)) { integrity_hooks().push_back(f); }
 
+// Outside the API window the harness's own oracle computations run.  They get a
+// budget of their own (4*10^6 allocator events, well under a second); running out of it only
+// makes the run inconclusive.
 void api_end() {
 	if (g_shm) g_shm->budget_policy = BUDGET_INCONCLUSIVE;
-	simheap::set_step_budget(0); simheap::reset_step_ticks();
+	simheap::set_step_budget(4000000); simheap::reset_step_ticks();
 }
 
 void api_begin() {
